@@ -58,7 +58,8 @@ def build_cmd(kind, k):
             "dt": lambda: led.QueryFastFadeTime(a)}[kind]()
 
 
-def make_hid_world(driver, kinds, exc_on, limit, ret, nloss=1, tail=0, start_seq=1, cancel=False, cancel_who=0, eager=False, exc_via="attr"):
+def make_hid_world(driver, kinds, exc_on, limit, ret, nloss=1, tail=0, start_seq=1, cancel=False, cancel_who=0, eager=False, exc_via="attr",
+                   use_glob=False):
     """exc_on: whether callers want CommunicationError (True) or a transparent retry (False).  exc_via: how they say so -
     "attr": the driver-wide exceptions_on_send attribute; "arg": the per-call exceptions= argument, with the attribute set
     the OTHER way round (the argument has to win)."""
@@ -102,6 +103,7 @@ def make_hid_world(driver, kinds, exc_on, limit, ret, nloss=1, tail=0, start_seq
         w = HidWorld(driver, bus, callers, start_seq=start_seq, reconnect_limit=limit,
                      exceptions_on_send=(exc_on if exc_via == "attr" else not exc_on), loss=nloss > 0, returns=ret)
         w.loss_budget = nloss
+        w.use_glob = use_glob           # device named by a glob pattern; it comes back under the NEXT node name (USB re-enumeration)
         w.cmds = cmds
         w.gens = gens
         w.timer_budget = 9
@@ -213,7 +215,8 @@ def judge_hid(res, cfg, w, obs):
             tend = min([t for t, x in st if x == "connected" and t > td] + [float("inf")])
             tnext = dtimes[k + 1] if k + 1 < len(dtimes) else float("inf")
             tend = min(tend, tnext)
-            opens = [t for t, p in w.open_calls if td < t <= tend + 1e-6]
+            # (a driver given a glob pattern looks the pattern up at every attempt and opens only what it found)
+            opens = [t for t, p in (w.glob_calls if cfg.get("use_glob") else w.open_calls) if td < t <= tend + 1e-6]
             failed_here = any(x == "failed" and td <= t <= tend + 1e-6 for t, x in st)
             for kth, t in enumerate(opens, start=1):
                 if abs(t - (td + kth * 1.0)) > 1e-3:
@@ -227,6 +230,14 @@ def judge_hid(res, cfg, w, obs):
                 if last and not connected_end and len(opens) == limit and w.status == "quiescent" and d._reconnect_task is None \
                         and not failed_here:
                     add_violation(res, f"C17:{tag}:failed-not-reported", f"{cfg}: reconnect limit {limit} reached after {len(opens)} attempts but status callbacks were {statuses}", case)
+        # "when the device returns, the handshake is repeated": the first reconnect attempt made after the device is back succeeds
+        attempts = w.glob_calls if cfg.get("use_glob") else w.open_calls
+        for tr in getattr(w, "return_times", []):
+            later = [t for t, p in attempts if t > tr + 1e-6]
+            lost_again = [t for t, x in obs["status"] if x == "disconnected" and t > tr + 1e-6]
+            if later and not [t for t, x in obs["status"] if x == "connected" and t >= later[0] - 1e-6] and not lost_again:
+                add_violation(res, f"C17:{tag}:not-reconnected-after-return", f"{cfg}: the gateway was back at t={tr} (node {w.node()}); reconnect attempts at "
+                              f"{later[:4]} (looked for {[p for t, p in attempts if t > tr][:2]}) never connected; status callbacks {statuses}", case)
         if returned and connected_end:
             if statuses[-1] != "connected":
                 add_violation(res, f"C17:{tag}:status-reconnected-missing", f"{cfg}: status callbacks {statuses}", case)
@@ -384,6 +395,10 @@ def shards(tier):
             for exc_on in (True, False):
                 for ret in (False, True):
                     out.append(("loss", drv, kinds, exc_on, None, ret, 1, 2 if len(kinds) == 1 else 1, "arg"))
+        # the device is named by a glob pattern and re-enumerates under another node name when it returns
+        for kinds, exc_on, limit, nloss in ((("num",), True, None, 1), (("num",), False, None, 1), (("num", "off"), False, 3, 1), (("num",), True, 3, 2),
+                                            (("seq",), True, None, 1)):
+            out.append(("loss", drv, kinds, exc_on, limit, True, nloss, 2 if len(kinds) == 1 else 1, "attr", "glob"))
         for kinds in (("num",), ("twice",), ("dt",), ("num", "num")):
             for start_seq in (1, 0xFE):
                 out.append(("cancel", drv, kinds, start_seq, 2 if (tier != "quick" or kinds == ("num", "num")) else 1))
@@ -412,8 +427,9 @@ def run_shard(shard):
     if k == "loss":
         _, drv, kinds, exc_on, limit, ret, nloss, bound = shard[:8]
         via = shard[8] if len(shard) > 8 else "attr"
-        cfg = dict(driver=drv, kinds=list(kinds), exc_on=exc_on, limit=limit, ret=ret, nloss=nloss, bound=bound, exc_via=via)
-        mk = make_hid_world(drv, kinds, exc_on, limit, ret, nloss, exc_via=via)
+        use_glob = len(shard) > 9 and shard[9] == "glob"
+        cfg = dict(driver=drv, kinds=list(kinds), exc_on=exc_on, limit=limit, ret=ret, nloss=nloss, bound=bound, exc_via=via, use_glob=use_glob)
+        mk = make_hid_world(drv, kinds, exc_on, limit, ret, nloss, exc_via=via, use_glob=use_glob)
         for ch, (w, obs) in explore(lambda c: execute(mk, c), bound):
             outs.add(judge_hid(res, cfg, w, obs))
             res["evaluations"] += 1
@@ -456,7 +472,7 @@ def replay(case):
                                 cancel_who=cfg.get("cancel_who", 0), eager=cfg.get("eager", False))
         else:
             mk = make_hid_world(cfg["driver"], tuple(cfg["kinds"]), cfg["exc_on"], cfg["limit"], cfg["ret"], cfg.get("nloss", 1),
-                                exc_via=cfg.get("exc_via", "attr"))
+                                exc_via=cfg.get("exc_via", "attr"), use_glob=cfg.get("use_glob", False))
         for ch, (w, obs) in explore(lambda c: execute(mk, c), cfg.get("bound", 2)):
             n0 = len(res["violations"])
             judge_hid(res, cfg, w, obs)
